@@ -293,10 +293,15 @@ impl Prop for C11 {
             Stage {
                 name: "many-ops",
                 kind: StageKind::Enumerate {
-                    scope: "6 fixed diffs with thousands of ops (7000 items with every third removed, 6000 with an item inserted after every third, 5000 with every fourth replaced; Myers and Patience)".into(),
+                    scope: "near-identical sequences of N / N+1 items for N at and around the powers of two from 64 to 8192 per algorithm (LCS up to 1025); 6 fixed diffs with thousands of ops (7000 items with every third removed, 6000 with an item inserted after every third, 5000 with every fourth replaced; Myers and Patience)".into(),
                     exhaustive: true,
                     gen: |_t, f| {
                         for c in many_ops_cases() {
+                            if !f(Case::Seq(c)) {
+                                return;
+                            }
+                        }
+                        for c in pow2_seq_cases(1025) {
                             if !f(Case::Seq(c)) {
                                 return;
                             }
